@@ -20,6 +20,7 @@ package main
 // depth-first search over the scheduler's decisions.
 
 import (
+	"strconv"
 	"fmt"
 	"os"
 	"strings"
@@ -222,7 +223,7 @@ func c02Types() []c02Type {
 				}
 				return c02BadOp
 			},
-			ops:   []c02Op{{0, 1, 10}, {0, 1, 11}, {0, 3, 30}, {1, 1, 0}, {2, 1, 0}, {2, 2, 0}, {3, 0, 0}},
+			ops:   []c02Op{{0, 1, 10}, {0, 1, 11}, {0, 3, 30}, {1, 1, 0}, {2, 1, 0}, {2, 2, 0}, {3, 0, 0}, {1, 2, 0}},
 			inits: [][]c02Op{{}, {{0, 2, 20}, {0, 1, 12}, {0, 4, 40}}},
 			tail:  []c02Op{{3, 0, 0}, {1, 1, 0}, {1, 2, 0}, {1, 3, 0}, {1, 4, 0}},
 			names: func(o c02Op) string {
@@ -391,6 +392,17 @@ func c02Run(c *c02Case) (obs []int64, out vsync.Outcome) {
 		for j := range res[i] {
 			res[i][j] = c02NoRet
 		}
+	}
+	// one preemption right after an unlock per execution (C02_PREEMPT overrides): catches results computed
+	// from guarded memory AFTER the critical section was left
+	// — in the 2 x 1 programs only (a function of the program, so that a replay takes the same decisions);
+	// the 3 x 1 and 2 x 2 programs switch at lock operations and call boundaries only
+	vsync.Preempt = 0
+	if len(c.prog) == 2 && len(c.prog[0]) == 1 && len(c.prog[1]) == 1 {
+		vsync.Preempt = 1
+	}
+	if v, err := strconv.Atoi(os.Getenv("C02_PREEMPT")); err == nil {
+		vsync.Preempt = v
 	}
 	out = vsync.Run(len(c.prog), c.sched, func(th int) {
 		for j, o := range c.prog[th] {
@@ -611,7 +623,8 @@ func init() {
 	register(&Prop{
 		ID: "C02",
 		Rule: "controlled scheduler: the containers are rebuilt with sync.RWMutex replaced by a cooperative mutex whose every operation is a scheduling point; " +
-			"for each of the 8 guarded types, 2-3 initial contents and every ordered pair of single-element operations from a 6-7 call alphabet (2 goroutines x 1 call) EVERY schedule is enumerated; " +
+			"for each of the 8 guarded types, 2-3 initial contents and every ordered pair of single-element operations from a 6-8 call alphabet (2 goroutines x 1 call) EVERY schedule is enumerated, " +
+			"including those with one preemption right after an Unlock/RUnlock (so that a result computed from guarded memory after the critical section was left is exposed); " +
 			"3 x 1 and 2 x 2 programs: seeded sample (quick) / all sorted triples + 150 random 2 x 2 programs per type (thorough), again every schedule of each. " +
 			"evaluations = executions (program x schedule); non-trivial = two calls of different goroutines overlap in time",
 		Exec: c02Exec, Gen: c02Gen, Describe: c02Describe,
